@@ -301,3 +301,7 @@ def check(ctx):
     # ---- R03-k a caller queued for a worker-thread token is still cancellable (shared with C14/R14-b)
     from .c14 import token_wait_interruptible
     token_wait_interruptible(ctx, "R03-k")
+
+    # ---- R03-l (shared with C07/R07-f, C12/R12-g)
+    from .common import waiter_guard
+    waiter_guard(ctx, "R03-l", "the delivery loop asks `.done()` only of a waiter that is an asyncio.Future (delivery must not raise on other awaitables)")
